@@ -10,6 +10,8 @@
 (*                 ("element" | "type"), action, header, fault,             *)
 (*                 nparts (rpc: 1 or 2 simple parts), complexPart (rpc: one *)
 (*                 more part of a complex type)]                            *)
+(* The header message has two parts (au: Audit, auth: Auth); soap:header     *)
+(* selects part="auth", so the Header holds the Auth element only.          *)
 (* d.types: "inline" | "imported" (the schema of wsdl:types lives in a      *)
 (*                 file of its own, reached by xsd:import)                  *)
 (***************************************************************************)
